@@ -306,7 +306,10 @@ def evaluate(ctx, case):
 def gen_word(rng, lo=1, hi=8, pool=None):
     while True:
         p = pool or rng.choice(POOLS)
-        w = ''.join(rng.choice(p) for _ in range(rng.randint(lo, hi)))
+        n = rng.randint(lo, hi)
+        if rng.random() < 0.03:
+            n = rng.choice([64, 128, 200, 254, 255, 256, 257, 300, 1024, 5000])      # long operands: no length limit is documented
+        w = ''.join(rng.choice(p) for _ in range(n))
         if pool is None and rng.random() < 0.04:
             # words that begin like an operator without being one ('s=foo', 's', '<inx', 's>'-free forms)
             w = rng.choice(['s=', 's', '<i', '<o', '<all', 's=s', 'ss=']) + w
